@@ -379,13 +379,24 @@ pub fn run(out: &mut Out, tier: &str, rng: &mut Rng) {
     }
     for i in 0..n {
         let flags = if i < 32 { i as u8 } else if rng.chance(1, 8) { rng.byte() } else { (rng.below(32)) as u8 };
-        let name = if i % 7 == 0 { rand_name(rng, 255) } else { rand_name(rng, 64) };
-        let s = Session::new(flags, name.clone());
+        let name = if i % 11 == 3 {
+            // longer than 64 bytes with a multi-byte character lying across byte 64
+            format!("{}{}{}", "a".repeat(61 + i % 3), ['é', '€', '😀'][i % 3], "-tail".repeat(1 + i % 4))
+        } else if i % 7 == 0 { rand_name(rng, 255) } else { rand_name(rng, 64) };
+        // the input is the name the CALLER passed (the constructor keeps its first 64 characters: the model does that itself)
+        let tok = format!("{}:{}", flags, hex(name.as_bytes()));
+        let s = match pg(|| Some(Session::new(flags, name.clone()))) {
+            Some(s) => s,
+            None => {
+                out.count("enc session");
+                out.case(&format!("enc session {}", tok), "PANIC", true);
+                continue;
+            }
+        };
         let b = send(&s);
         let back = pg(|| Session::try_from(s.to_bytes()).ok());
         let ok = back.map(|x| x.to_bytes() == s.to_bytes()).unwrap_or(false);
-        // the object as the client built it: flags + the (already truncated) name
-        enc_case(out, "session", &format!("{}:{}", flags, hex(s.name().as_bytes())), &b, ok);
+        enc_case(out, "session", &tok, &b, ok);
     }
     let constraints = [0u8, 1, 2, 20, 21, 22];
     for _ in 0..n {
@@ -576,8 +587,8 @@ pub fn run(out: &mut Out, tier: &str, rng: &mut Rng) {
     // ------------------------------------------------------------------ dec
     // valid encodings per kind, harvested from the encoders above by re-generating a few objects
     let mut valid: Vec<(&'static str, Vec<u8>)> = vec![];
-    valid.push(("session", Session::new(0x11, "verif/é".into()).to_bytes()));
-    valid.push(("session", Session::new(0x01, rand_name(rng, 64)).to_bytes()));
+    valid.push(("session", { let mut p = vec![0x11u8]; p.extend_from_slice("verif/é".as_bytes()); p }));
+    valid.push(("session", { let mut p = vec![0x01u8]; p.extend_from_slice(rand_name(rng, 64).as_bytes()); p }));
     valid.push(("sessionError", SessionError::UnauthorizedCommand.to_bytes()));
     valid.push(("request", Request::new(0x15).to_bytes()));
     valid.push(("engine", Engine { driver_demand: 3, actual_engine: 4, rpm: 1500, state: EngineState::Request }.to_bytes()));
